@@ -328,4 +328,4 @@ func vh_C14_validators_Q() {
 }
 
 // thorough tier
-func vh_C10_link_T() { vhC10Link(2, 2, 3, false) }
+func vh_C10_link_T() { vhC10Link(2, 2, 2, false) }
